@@ -45,6 +45,22 @@ CHECKS = {
             "Clause (a) enumerates all kernels generated in the run (exhaustive for that finite set); clause (b) inspects every "
             "kernel invocation of generated simulator/solver/filter/RK/interaction scenarios for output/input aliasing and replays "
             "it cell by cell in different orders; clause (c) samples real thread counts {1,2,3,5,8,16}.", "3/C15", ""),
+    "C11": (True, "Hypothesis-generated shapes/spacings/right-hand sides vs an independent discrete Neumann operator (residual + zero-mean oracle)",
+            "Generated solver instances (2-D, 3-D scalar and vector) over shapes 2..24 (quick) / 2..64 (thorough): the returned "
+            "field must be real, zero-mean and satisfy the independently coded Neumann finite-difference operator up to 50*n*eps.",
+            "3/C11", ""),
+    "C16": (True, "Hypothesis-generated simulators/velocities/viscosities/CFL: inequality oracles on compute_stable_timestep; discrete maximum principle on the diffusion kernels",
+            "All three simulator classes with generated velocity fields (zero, constant, spikes up to 2^20, noise), viscosities "
+            "over 8 decades and CFL numbers: both documented limits, linearity in the prefactor, positivity; diffusion kernels "
+            "at and below the limit must be convex averagings.", "3/C16", ""),
+    "C19": (True, "Stratified Hypothesis over every stabilising operator and option: convexity/monotonicity/bound invariants, Fourier-symbol metamorphic relation, buffer-history independence",
+            "Brinkmann (all Eulerian variants + Lagrangian kernel) with penalty sequences incl. 0 and 2^40 and exact 0/1 "
+            "indicators; characteristic function at +-blend +- ulps; damping widths 0..6 from the minimal extent; filters of "
+            "order 1..4 on constants/checkerboards/plane waves with zero vs poisoned work buffers.", "3/C19", ""),
+    "C20": (True, "Hypothesis differential test of each time-step kernel against a polynomial in the library's own flux kernel; exact-rational execution of the repo's wrappers through the IR interpreter",
+            "Euler kernels == field + flux(field) and SSP-RK3 == (I+A+A^2/2+A^3/6) with A from the public flux kernel, for "
+            "generated fields/velocities/steps/shapes/precisions; the same identities as exact equalities when the repo's "
+            "Python wrappers are run on Fraction arrays.", "3/C20", ""),
 }
 
 NOT_BUILT_REASON = "check not built yet (work in progress in this session; will be claimed once its generated check is registered)"
